@@ -116,6 +116,13 @@ def user_edits(desc, world_files_hint=None):
     d["act"] = [("foreign", os.path.join(first_dir, "foreign.txt"))]
     yield (f"user:foreign {first_dir}", d)
     if desc["fam"] == "f_chain":
+        # the user overwrites an output in a build that fails elsewhere, so the output's step is
+        # hash-checked but never gets to run again; later cleanups must still see the user's content
+        for path in ("c.txt", "a.txt"):
+            d = copy.deepcopy(base)
+            d.setdefault("knobs", {})["f"] = 1
+            d["act"] = [("overwrite", path)]
+            yield (f"user:overwrite {path} while another step fails", d)
         d = copy.deepcopy(base)
         d.setdefault("knobs", {}).update({"b": 0, "c": 0, "b_static": 1})
         yield ("adopt b.txt as static", d)
@@ -189,17 +196,22 @@ def under_declared_static(path, decl):
             or any(fnmatch.fnmatchcase(path, p) for p in patterns))
 
 
-def judge(removals, tracker, desc, may_clean, unsafe=False, user_paths=()):
+def judge(removals, tracker, desc, may_clean, unsafe=False, user_paths=(), writes=None):
     """Return (kind, path, message) for every removal that C06 forbids."""
-    return [(k, _path_of(m), m) for k, m in _judge(removals, tracker, desc, may_clean, unsafe, user_paths)]
+    return [(k, _path_of(m), m) for k, m in _judge(removals, tracker, desc, may_clean, unsafe, user_paths, writes)]
 
 
 def _path_of(msg):
     return msg.split()[1].rstrip(":,")
 
 
-def _judge(removals, tracker, desc, may_clean, unsafe=False, user_paths=()):
+def _judge(removals, tracker, desc, may_clean, unsafe=False, user_paths=(), writes=None):
     out = []
+    # who wrote the content that is on disk now: the harness' own record of every write (steps
+    # and user), independent of what the database says was "recorded"
+    last_write = {}
+    for seq, rel, digest, who in (writes or ()):
+        last_write[rel] = (digest, who)
     srcs, src_dirs = sources_of(desc)
     srcs |= set(user_paths)
     decl = declared_static(desc)
@@ -231,6 +243,11 @@ def _judge(removals, tracker, desc, may_clean, unsafe=False, user_paths=()):
             out.append(("never-output", f"{r['op']} {path}, which no step ever declared as output"))
             continue
         if tracker.role.get(path) == "out" and not unsafe:
+            lw = last_write.get(path)
+            if lw is not None and lw[1] == "user" and lw[0] == r.get("digest"):
+                out.append(("modified-output", f"{r['op']} {path} whose content was written by the user after the "
+                            f"last step wrote it (whatever hash the database holds now)"))
+                continue
             rec = tracker.recorded.get(path)
             if rec is not None and r.get("digest") != rec:
                 out.append(("modified-output", f"{r['op']} {path} whose content {str(r.get('digest'))[:8]} "
@@ -438,7 +455,8 @@ def run_job(spec):
                     if rem:
                         acc.nontrivial.add(h8([fam, cfgname, labels]))
                         acc.count("removals", len(rem))
-                    for kind, rpath, msg in judge(rem, tracker, descs[i], may_clean, user_paths=user_paths):
+                    for kind, rpath, msg in judge(rem, tracker, descs[i], may_clean, user_paths=user_paths,
+                                                  writes=world.writes):
                         acc.violation(f"C06|{fam}|{kind}|{rpath}",
                                       {"family": fam, "cfg": cfgname, "targets": spec["targets"],
                                        "edits": labels, "kind": kind, "what": msg,
@@ -470,7 +488,7 @@ def run_job(spec):
                             if not args["commit"] and rem:
                                 acc.violation(f"C06|{fam}|dry-run-removed", {"args": args, "removed": rem[:5]}, rep)
                             for kind, rpath, msg in judge(rem, tr2, descs[-1], True, unsafe=not args["safe"],
-                                                          user_paths=user_paths):
+                                                          user_paths=user_paths, writes=w2.writes):
                                 acc.violation(
                                     f"C06|{fam}|tool-{kind}|{rpath}|all={args['all']}|safe={args['safe']}",
                                     {"family": fam, "clean_args": args, "edits": labels, "kind": kind,
